@@ -663,6 +663,9 @@ func RunC19(ctx *core.Ctx) *core.Violation {
 	for i := range wbuf[len(wbuf):cap(wbuf)] {
 		wbuf[len(wbuf):cap(wbuf)][i] = 0xC3 // a recycled buffer: stale bytes in the spare capacity
 	}
+	if len(prefix) == 0 && t.Chance(1, 3) {
+		wbuf = nil // the zero writer: NewBinaryWriter(nil)
+	}
 	w := parse.NewBinaryWriter(wbuf)
 	if m.le {
 		w.ByteOrder = binary.LittleEndian
